@@ -167,6 +167,7 @@ EDITS = {
     'drop-submodule': lambda s: _drop_submodule(s),
     'fill-empty-dir': lambda s: _write(s + '/d2/empty/w.dat', ''),
     'drop-finds-add-submodule': lambda s: _drop_finds_add_submodule(s),
+    'edit-toolchain': lambda s: _os.path.exists(s + '/tc.bfg') and _write(s + '/tc.bfg', "environ['SAID'] = 'two'\n"),
     'edit-new-submodule': lambda s: _os.path.exists(s + '/sub2/build.bfg') and _append(s + '/sub2/build.bfg', "copy_file('v.txt')\n"),
 }
 BUILD_FILES = ('Makefile', '.bfg_find_deps', '.bfg_find_cache', 'compile_commands.json')
@@ -204,6 +205,12 @@ class RegenHistory(Bounded):
                  ('drop-finds-add-submodule', 'edit-new-submodule')]
         for a, b in pairs:
             yield {'edits': [a, b]}
+        # one regeneration output only (no generated .pc file) but several inputs; and a toolchain file that is edited
+        yield {'edits': ['add-match-d1', 'edit-sub'], 'single_output': True}
+        yield {'edits': ['add-dir'], 'single_output': True}
+        yield {'edits': ['edit-toolchain'], 'toolchain': True}
+        yield {'edits': ['edit-toolchain', 'add-match-d1'], 'toolchain': True}
+        yield {'edits': ['add-match-d1', 'edit-toolchain'], 'toolchain': True, 'single_output': True}
         # the consequence of a watched-directory set that was not refreshed: only the last step is compared
         yield {'edits': ['add-empty-dir', 'fill-empty-dir'], 'compare_from': 1}
         if extra:
@@ -219,7 +226,11 @@ class RegenHistory(Bounded):
         try:
             src, b = top + '/src', top + '/b'
             _write(src + '/build.bfg', "project('p')\na = find_files('d1/*.txt', extra='*.md')\nb = find_files('d2/**/*.dat')\n"
-                                      "submodule('sub')\nfor f in a + b:\n    copy_file(f)\ncommand('say', cmd=['echo', argv.subname])\npkg_config('p', version='1.0')\n")
+                                      "submodule('sub')\nfor f in a + b:\n    copy_file(f)\ncommand('say', cmd=['echo', argv.subname])\n"
+                                      + ("" if raw.get('single_output') else "pkg_config('p', version='1.0')\n")
+                                      + ("command('said', cmd=['echo', env.getvar('SAID', 'nothing')])\n" if raw.get('toolchain') else ""))
+            if raw.get('toolchain'):
+                _write(src + '/tc.bfg', "environ['SAID'] = 'one'\n")
             _write(src + '/options.bfg', "argument('name', default='x')\nsubmodule('sub')\n")
             _write(src + '/sub/options.bfg', "argument('subname', default='y')\n")
             _write(src + '/sub/build.bfg', "copy_file('s.txt')\n")
@@ -232,7 +243,8 @@ class RegenHistory(Bounded):
             _os.chmod(launcher, 0o755)
             env = dict(_os.environ, PATH=top + '/bin:' + _os.environ['PATH'])
             env.pop('MAKEFLAGS', None)
-            conf = [launcher, 'configure-into', src, b, '--backend=make', '--no-resolve-packages']
+            conf = [launcher, 'configure-into', src, b, '--backend=make', '--no-resolve-packages'] + \
+                (['--toolchain', src + '/tc.bfg'] if raw.get('toolchain') else [])
 
             def run(cmd):
                 return subprocess.run(cmd, env=env, capture_output=True, text=True, timeout=120)
